@@ -42,10 +42,13 @@ RULE = ("package images with sibling names that are string prefixes of each othe
         "one and the next build coming under the other (files, links, sub-directories, empty directories); random recorded contents (old) and new contents over random live roots built around the base-system directories (usr, usr/lib, etc, "
         "var, bin, …): shared entries, entries deleted or retyped behind the package's back, non-empty directories, symlinks to files and "
         "directories at listed locations, symlinked ancestor directories; MergeEngine.uninstall and .replace with an offset, and "
-        "unmerge_contents directly with/without its offset argument; non-trivial = at least one listed path is removed and at least one "
+        "unmerge_contents directly with/without its offset argument; the live root is named to the code by its canonical path or through a "
+        "symlink (mount-point link, link with '..'); when model and code disagree on a case, the property is evaluated on the inputs next to "
+        "it (other root spelling, other engine, protected base directories owned and left empty, root pruned to the listed paths); non-trivial = at least one listed path is removed and at least one "
         "listed directory or protected directory survives")
 
-BASE = [["usr"], ["usr", "lib"], ["usr", "bin"], ["usr", "share"], ["etc"], ["var"], ["opt"], ["bin"], ["lib64"], ["home"]]
+BASE = [["usr"], ["usr", "lib"], ["usr", "bin"], ["usr", "share"], ["usr", "lib32"], ["usr", "sbin"], ["etc"], ["var"], ["opt"], ["bin"],
+        ["lib64"], ["home"], ["sbin"]]
 LEAF = ["a", "b", "c", "conf", "lib", "x y", "ü", "d#new", ".keep"]
 
 
@@ -237,10 +240,10 @@ class FakePkg:
         return "fake-pkg"
 
 
-def make_engine(mode, sb, *pkgs):
+def make_engine(mode, sb, *pkgs, offset=None):
     from pkgcore.merge import engine, triggers
     from pkgcore.operations import observer
-    e = getattr(engine.MergeEngine, mode)(sb.tmp, *pkgs, offset=sb.root, disable_plugins=True,
+    e = getattr(engine.MergeEngine, mode)(sb.tmp, *pkgs, offset=offset or sb.root, disable_plugins=True,
                                           observer=observer.repo_observer(observer.null_output()))
     for t in (triggers.merge, triggers.unmerge, triggers.BaseSystemUnmergeProtection):
         t().register(e)
@@ -263,11 +266,33 @@ def make_engine(mode, sb, *pkgs):
 
 def rel_of(sb, path):
     path = os.path.normpath(path)
-    if path == sb.root:
-        return []
-    if path.startswith(sb.root + "/"):
-        return path[len(sb.root) + 1:].split("/")
+    for r in (sb.root,) + tuple(getattr(sb, "aliases", ())):
+        if path == r:
+            return []
+        if path.startswith(r + "/"):
+            return path[len(r) + 1:].split("/")
     return ["!outside"] + path.split("/")
+
+
+# how the live root is named to the code: its canonical path; a path that reaches it through a symlink (a mount point
+# link such as /mnt/gentoo -> ../roots/stage3, or /tmp -> private/tmp); the canonical path with a trailing slash
+SPELLINGS = ("plain", "link", "link-deep")
+
+
+def spell_root(sb, how):
+    """creates what the spelling needs next to the scratch root; returns the path handed to the code"""
+    sb.aliases = ()
+    if how == "link":
+        alias = os.path.join(sb.base, "mnt")
+        os.symlink("root", alias)
+    elif how == "link-deep":
+        os.mkdir(os.path.join(sb.base, "roots"))
+        os.symlink("..", os.path.join(sb.base, "roots", "up"))
+        alias = os.path.join(sb.base, "roots", "up", "root")
+    else:
+        return sb.root
+    sb.aliases = (os.path.normpath(alias),)
+    return alias
 
 
 def resolution_table(sb, entries):
@@ -317,31 +342,32 @@ def probe(sb, e):
     return ("other", None)
 
 
-def run_real(kind, tree, old, new=None, offset_arg=True):
+def run_real(kind, tree, old, new=None, offset_arg=True, how="plain"):
     """returns dict(pre, mid, post, ops, exc, outside)"""
     from pkgcore.fs import ops
     sb = Sandbox()
     um = os.umask(0o022)
     try:
         sb.build(tree)
+        root = spell_root(sb, how)
         pre = snapshot(sb.root)
         mid = None
         exc = None
-        with Recorder(sb.root) as rec:
+        with Recorder(sb.root, aliases=sb.aliases) as rec:
             try:
                 if kind == "unmerge":
                     if offset_arg:
-                        ops.unmerge_contents(make_cset(sb, old), offset=sb.root)
+                        ops.unmerge_contents(make_cset(sb, old), offset=root)
                     else:
-                        ops.unmerge_contents(make_cset(sb, old, prefix=sb.root))
+                        ops.unmerge_contents(make_cset(sb, old, prefix=root))
                 elif kind == "uninstall":
-                    e = make_engine("uninstall", sb, FakePkg(make_cset(sb, old)))
+                    e = make_engine("uninstall", sb, FakePkg(make_cset(sb, old)), offset=root)
                     for h in HOOKS_UN:
                         getattr(e, h)()
                     if e.spy.seen is not None:
                         plan = sorted(rel_of(sb, p) for p in e.spy.seen)
                 else:
-                    e = make_engine("replace", sb, FakePkg(make_cset(sb, old)), FakePkg(make_cset(sb, new)))
+                    e = make_engine("replace", sb, FakePkg(make_cset(sb, old)), FakePkg(make_cset(sb, new)), offset=root)
                     for h in HOOKS_MERGE:
                         getattr(e, h)()
                     mid = snapshot(sb.root)
@@ -358,10 +384,10 @@ def run_real(kind, tree, old, new=None, offset_arg=True):
         post = snapshot(sb.root)
         oracle = []
         if exc is None:
-            for b in [b for b in BASE if kind != "unmerge" and tuple(b) in pre and pre[tuple(b)]["k"] == "dir"]:
-                from pkgcore.merge import triggers
-                if "/" + "/".join(b) in triggers.BaseSystemUnmergeProtection._preserve_sequence and not os.path.isdir(sb.path(b)):
-                    oracle.append("protected directory /%s was removed" % "/".join(b))
+            from pkgcore.merge import triggers
+            for b in [[c for c in x.split("/") if c] for x in triggers.BaseSystemUnmergeProtection._preserve_sequence]:
+                if kind != "unmerge" and tuple(b) in pre and pre[tuple(b)]["k"] == "dir" and not os.path.isdir(sb.path(b)):
+                    oracle.append("protected base directory /%s (a directory before) was removed" % "/".join(b))
             if kind == "replace":
                 # what the new package installed (as the kernel sees it at the entry's own path, right after the merge)
                 # must be exactly the same after the unmerge of the old package
@@ -417,48 +443,68 @@ CORPUS = [
 ]
 
 
-def run(ctx):
-    rng = ctx.rng
-    cases = list(CORPUS)
-    if ctx.replay_cases:
-        cases = [(c["kind"], c["tree"], c["old"], c.get("new")) for c in ctx.replay_cases if "kind" in c] + cases
-    for _ in range(ctx.n(900, 14000)):
-        g = rng.random()
-        if g < 0.15:
-            tree, old, new = gen_alias_replace(rng)
-            cases.append(("replace", tree, old, new))
-            continue
-        if g < 0.35:
-            tree, old = gen_pruned(rng)
-            kind = rng.choice(["unmerge", "unmerge", "uninstall"])
-            cases.append((kind, tree, old, None))
-            continue
-        tree = gen_root(rng)
-        kind = rng.choice(["unmerge", "uninstall", "uninstall", "replace", "replace"])
-        if rng.random() < 0.5:
-            # the usual situation: the old package is really installed (its entries exist with their types)
-            old = gen_contents(rng, [])
-            have = {tuple(nd["p"]) for nd in tree}
-            havedirs = {tuple(nd["p"]) for nd in tree if nd["k"] == "dir"}
-            for e in sorted(old, key=lambda e: len(e["p"])):
-                if tuple(e["p"]) in have or any(tuple(e["p"][:i]) not in havedirs for i in range(1, len(e["p"]))):
-                    continue
-                if rng.random() < 0.85:
-                    nd = {"p": e["p"], "uid": e["uid"], "gid": e["gid"], "mtime": 1000, "mode": e["mode"]}
-                    nd.update({"dir": dict(k="dir"), "reg": dict(k="file", data=e.get("data", "")), "sym": dict(k="sym", target=e.get("target", "x")),
-                               "fifo": dict(k="fifo")}[e["k"]])
-                    tree.append(nd)
-                    have.add(tuple(e["p"]))
-                    if nd["k"] == "dir":
-                        havedirs.add(tuple(e["p"]))
-        else:
-            old = gen_contents(rng, tree)
-        new = gen_contents(rng, tree, other=old) if kind == "replace" else None
-        cases.append((kind, tree, old, new))
+def protected_paths():
+    from pkgcore.merge import triggers
+    return [[c for c in p.split("/") if c] for p in triggers.BaseSystemUnmergeProtection._preserve_sequence]
+
+
+def neighbours(rng, kind, tree, old, new, offarg, how):
+    """inputs next to a case on which model and code disagreed, the same operation with one circumstance changed at a time:
+    the live root named through a symlink; the other engine (uninstall of the old package / replace by a build that keeps
+    part of it); the package owning protected base directories that its removal leaves empty; the root pruned to what
+    the package lists (so that every listed directory ends up empty and any wrongly removed one shows); unmerge called
+    with/without its offset argument.  The property itself is evaluated on the real code for each."""
+    out = []
+
+    def add(tag, kind_, tree_, old_, new_, offarg_=offarg, how_=how):
+        if old_:
+            out.append((kind_, tree_, old_, new_, offarg_, how_, "near:" + tag))
+
+    have = {tuple(n["p"]): n for n in tree}
+    listed = {tuple(e["p"]) for e in old} | {tuple(e["p"]) for e in (new or [])}
+    # protected base directories: on the root (empty if new), owned by the old package, not by the new one
+    tree_b, old_b = list(tree), list(old)
+    for b in protected_paths():
+        if rng.random() < 0.6 and all(tuple(b[:i]) in have or any(tuple(n["p"]) == tuple(b[:i]) for n in tree_b) for i in range(1, len(b))) \
+                and all(have.get(tuple(b[:i]), {"k": "dir"})["k"] == "dir" for i in range(1, len(b) + 1)):
+            if tuple(b) not in have and not any(tuple(n["p"]) == tuple(b) for n in tree_b):
+                tree_b.append(_d(b))
+            if tuple(b) not in {tuple(e["p"]) for e in old_b}:
+                old_b.append(_e(b, "dir"))
+    # pruned: only what the package lists (plus the directories leading there) stays on the root
+    keep = set()
+    for q in listed:
+        for i in range(1, len(q) + 1):
+            keep.add(q[:i])
+    tree_p = [n for n in tree if tuple(n["p"]) in keep and (n.get("link_to") is None or tuple(n["link_to"]) in keep)]
+    tree_bp = [n for n in tree_b if tuple(n["p"]) in keep | {tuple(e["p"]) for e in old_b}
+               and (n.get("link_to") is None or tuple(n["link_to"]) in keep)]
+    kinds = [(kind, new)]
+    if kind != "uninstall":
+        kinds.append(("uninstall", None))
+    if kind != "replace":
+        nb = [dict(e) for e in old if e["k"] != "dir" and rng.random() < 0.4]
+        nb = nb + [e for e in old if e["k"] == "dir" and any(x["p"][:len(e["p"])] == e["p"] for x in nb)]
+        if nb:
+            kinds.append(("replace", nb))
+    for k_, n_ in kinds:
+        for h_ in SPELLINGS:
+            if (k_, h_) != (kind, how):
+                add("%s/%s" % (k_, h_), k_, tree, old, n_, how_=h_)
+            add("%s/%s/base" % (k_, h_), k_, tree_b, old_b, n_, how_=h_)
+            add("%s/%s/base+pruned" % (k_, h_), k_, tree_bp, old_b, n_, how_=h_)
+        add("%s/pruned" % k_, k_, tree_p, old, n_)
+    add("unmerge/offarg", "unmerge", tree, old, None, offarg_=not offarg)
+    return out
+
+
+def process(ctx, cases, probe=False):
+    """run the cases for real, ask the model, judge; probe=True: only the property itself is reported (inputs next to a
+    model/implementation disagreement).  Returns the cases on which model and code disagreed."""
+    disagreed = []
     results, reqs = [], []
-    for kind, tree, old, new in cases:
-        offarg = rng.random() < 0.5
-        r = run_real(kind, tree, old, new, offset_arg=offarg)
+    for kind, tree, old, new, offarg, how, origin in cases:
+        r = run_real(kind, tree, old, new, offset_arg=offarg, how=how)
         ids = Ids()
         r["prej"] = fs_json(r["pre"], ids)
         r["npre"] = ids.n
@@ -482,13 +528,17 @@ def run(ctx):
             reqs.append({"cmd": "c20.plan", "live": [entry_json(e) for e in r["live"]], "new": newj, "res": r["restab"]})
         results.append(r)
     replies = ctx.model(reqs)
-    from pkgcore.merge import triggers
-    prot = {tuple(c for c in p.split("/") if c) for p in triggers.BaseSystemUnmergeProtection._preserve_sequence}
-    for (kind, tree, old, new), r in zip(cases, results):
+    prot = {tuple(p) for p in protected_paths()}
+    for (kind, tree, old, new, offarg, how, origin), r in zip(cases, results):
         m, sp = replies[r["first"]], replies[r["first"] + 1]
-        case = {"kind": kind, "tree": tree, "old": old, "new": new}
+        case = {"kind": kind, "tree": tree, "old": old, "new": new, "offset_arg": offarg, "root_spelling": how, "origin": origin}
+
+        def mismatch(detail):
+            disagreed.append((kind, tree, old, new, offarg, how, origin))
+            if not probe:
+                ctx.mismatch(case, detail)
         if m == "bad-op" or sp == "bad-op":
-            ctx.mismatch(case, "driver rejected the request")
+            mismatch("driver rejected the request")
             continue
         res = classify_exc(r["exc"])
         literal = not symlinked(r["pre"], old) and (new is None or not (symlinked(r["pre"], new, dirs_too=True)
@@ -497,8 +547,10 @@ def run(ctx):
         removed = [p for p in r["pre"] if p not in r["post"]]
         kept_listed = [e for e in old if tuple(e["p"]) in r["post"] and r["post"][tuple(e["p"])]["k"] == "dir"]
         ctx.case(case, res == "ok" and len(removed) >= 1 and len(kept_listed) >= 1,
-                 key=repr((kind, r["prej"], [entry_json(e) for e in old], [entry_json(e) for e in (new or [])])))
+                 key=repr((kind, how, r["prej"], [entry_json(e) for e in old], [entry_json(e) for e in (new or [])])))
         ctx.count("kind_" + kind)
+        ctx.count("root_spelling_" + how)
+        ctx.count("origin_" + origin.split(":")[0])
         ctx.count("result_" + res.split(":")[0])
         ctx.count("literal" if literal else "symlinked_ancestor")
         ctx.count("removed_%d" % min(len(removed), 6))
@@ -507,6 +559,9 @@ def run(ctx):
             ctx.count("listed_%s_live_%s" % (e["k"], live["k"] if live else "absent"))
             if tuple(e["p"]) in prot:
                 ctx.count("listed_protected_dir")
+                if kind != "unmerge" and live and live["k"] == "dir" and res == "ok" and not any(
+                        q[:len(e["p"])] == tuple(e["p"]) and len(q) > len(e["p"]) for q in r["post"]):
+                    ctx.count("listed_protected_dir_left_empty_" + how)
         for o in r["ops"]:
             if o[0] in ("unlink", "rmdir"):
                 ctx.count("op_" + o[0] + ("" if o[-1] is None else "_" + str(o[-1])))
@@ -519,7 +574,7 @@ def run(ctx):
             mp = replies[r["planreq"]]
             ctx.count("remove_cset_compared")
             if mp == "bad-op":
-                ctx.mismatch(case, "driver rejected the plan request")
+                mismatch("driver rejected the plan request")
             elif sorted(mp) != r["plan"]:
                 extra = [p for p in r["plan"] if p not in mp]
                 newlocs_ = [e["p"] for e in new]
@@ -529,12 +584,13 @@ def run(ctx):
                     ctx.violation(case, "the replace is about to unmerge %s, which the new package installs (the same object under "
                                   "another name on the live root)" % hit[:3])
                 else:
-                    ctx.mismatch(case, "remove cset of the engine %s, of the model %s" % (r["plan"], sorted(mp)))
+                    mismatch("remove cset of the engine %s, of the model %s" % (r["plan"], sorted(mp)))
         # ---- edge C (literal cases: the Lean specification; symlinked ones: the direct oracle, plain link topologies only)
+        protected_gone = [o for o in r["oracle"] if o.startswith("protected base directory")]
         if literal or not c18.simple_links(r["pre"], old + (new or [])) or (r["mid"] is not None and not c18.simple_links(r["mid"], old + (new or []))):
             if r["oracle"] and not literal:
                 ctx.count("symlinked_case_with_complex_links_not_claimed")
-            r["oracle"] = []
+            r["oracle"] = protected_gone if literal else []
         if r["oracle"]:
             ctx.violation(case, "; ".join(r["oracle"][:3]))
         elif res == "ok" and literal and sp:
@@ -544,18 +600,87 @@ def run(ctx):
         if literal:
             ctx.traces += 1
             if m["result"] != res:
-                ctx.mismatch(case, "real: %s, model: %s" % (res, m["result"]))
+                mismatch("real: %s, model: %s" % (res, m["result"]))
                 continue
             rt, mt = model_trace(r["ops"]), m["trace"]
             if rt != mt:
                 k = next((i for i, (a, b) in enumerate(zip(rt, mt)) if a != b), min(len(rt), len(mt)))
-                ctx.mismatch(case, "system-call traces differ at #%d: real %s, model %s" % (k, rt[k:k + 2], mt[k:k + 2]))
+                mismatch("system-call traces differ at #%d: real %s, model %s" % (k, rt[k:k + 2], mt[k:k + 2]))
                 continue
             real_fin, mod_fin = canon_fs(r["postj"], r["npre"]), canon_fs(m["fs"], r["npre"])
             if real_fin != mod_fin:
-                ctx.mismatch(case, "final snapshots differ: " + "; ".join(diff_fs(real_fin, mod_fin)))
+                mismatch("final snapshots differ: " + "; ".join(diff_fs(real_fin, mod_fin)))
             if res == "ok" and m["fail"] and kind != "replace":
-                ctx.mismatch(case, "model run violates the proved theorem?! %s" % m["fail"])
+                mismatch("model run violates the proved theorem?! %s" % m["fail"])
+    return disagreed
+
+
+def run(ctx):
+    rng = ctx.rng
+    cases = [c + ("corpus",) for c in CORPUS]
+    # the corpus once more with the live root named through a symlink
+    cases += [c + ("corpus-link",) for c in CORPUS if c[0] != "unmerge"]
+    if ctx.replay_cases:
+        cases = [(c["kind"], c["tree"], c["old"], c.get("new"), ("replay", c.get("offset_arg"), c.get("root_spelling")))
+                 for c in ctx.replay_cases if "kind" in c] + cases
+    for _ in range(ctx.n(900, 14000)):
+        g = rng.random()
+        if g < 0.15:
+            tree, old, new = gen_alias_replace(rng)
+            cases.append(("replace", tree, old, new, "alias"))
+            continue
+        if g < 0.35:
+            tree, old = gen_pruned(rng)
+            kind = rng.choice(["unmerge", "unmerge", "uninstall"])
+            cases.append((kind, tree, old, None, "pruned"))
+            continue
+        tree = gen_root(rng)
+        kind = rng.choice(["unmerge", "uninstall", "uninstall", "replace", "replace"])
+        if rng.random() < 0.5:
+            # the usual situation: the old package is really installed (its entries exist with their types)
+            old = gen_contents(rng, [])
+            have = {tuple(nd["p"]) for nd in tree}
+            havedirs = {tuple(nd["p"]) for nd in tree if nd["k"] == "dir"}
+            for e in sorted(old, key=lambda e: len(e["p"])):
+                if tuple(e["p"]) in have or any(tuple(e["p"][:i]) not in havedirs for i in range(1, len(e["p"]))):
+                    continue
+                if rng.random() < 0.85:
+                    nd = {"p": e["p"], "uid": e["uid"], "gid": e["gid"], "mtime": 1000, "mode": e["mode"]}
+                    nd.update({"dir": dict(k="dir"), "reg": dict(k="file", data=e.get("data", "")), "sym": dict(k="sym", target=e.get("target", "x")),
+                               "fifo": dict(k="fifo")}[e["k"]])
+                    tree.append(nd)
+                    have.add(tuple(e["p"]))
+                    if nd["k"] == "dir":
+                        havedirs.add(tuple(e["p"]))
+        else:
+            old = gen_contents(rng, tree)
+        new = gen_contents(rng, tree, other=old) if kind == "replace" else None
+        cases.append((kind, tree, old, new, "random"))
+    full = []
+    for kind, tree, old, new, origin in cases:
+        offarg = rng.random() < 0.5
+        how = rng.choice(["plain", "plain", "link", "link-deep"])
+        if origin == "corpus":
+            how = "plain"
+        elif origin == "corpus-link":
+            how = "link"
+        elif isinstance(origin, tuple):
+            origin, oa, sp_ = origin
+            offarg = offarg if oa is None else oa
+            how = sp_ or how
+        full.append((kind, tree, old, new, offarg, how, origin))
+    disagreed = process(ctx, full)
+    # ---- model and implementation disagree somewhere: is the property itself broken on that input or next to it?
+    if disagreed and not ctx.violations:
+        seen, near = set(), []
+        for c in disagreed[:ctx.n(5, 15)]:
+            for nb in neighbours(rng, *c[:6]):
+                k = repr(nb[:6])
+                if k not in seen:
+                    seen.add(k)
+                    near.append(nb)
+        ctx.count("inputs_next_to_a_disagreement_evaluated", len(near))
+        process(ctx, near, probe=True)
 
 
 LEVEL_TEXT = ("Kernel-checked Lean 4 theorems about a model of unmerge_contents and of the uninstall/replace cset algebra over the abstract file "
